@@ -2222,6 +2222,10 @@ class Frame(object):
                 if r is not None:
                     return r
                 return Sym('%s(%s)' % (n, self._argtext(args, kwargs)))
+            if getattr(callee, 'method', None) is not None:
+                r = self._call_bound(callee, args, kwargs, st, node, record)
+                if r is not None:
+                    return r
             if self.sc.extended and type(callee) is Sym and n not in self.fi.params and re.match(r'^[A-Za-z_][\w.]*$', callee.text) and callee.text != n:
                 # a local bound to an opaque callable (f = zlib.compress; f(x)): the call is the call of that callable
                 record(callee.text)
@@ -2230,10 +2234,6 @@ class Frame(object):
                 # a local (not a parameter such as `cls`) bound to a class (k = A if c else B; k()): the call constructs that class
                 record(callee.ci.name)
                 return self._construct(callee.ci, args, kwargs, st, node)
-            if getattr(callee, 'method', None) is not None:
-                r = self._call_bound(callee, args, kwargs, st, node, record)
-                if r is not None:
-                    return r
             if isinstance(callee, Sym) and callee.text != n and \
                     (re.match(r'^[\w.()<>#]+$', callee.text) or (re.match(r'^[A-Za-z_][\w.]*\(.*\)$', callee.text) and _balanced(callee.text))):
                 # a local that holds a callable value (bound method, function reference, looked-up class): the call is a call of that value
